@@ -47,7 +47,13 @@ TripKey(td) ==
      sr    |-> OrElse(td.sr, 0)]
 
 (* TripID.Less: lexicographic on (id, route, dir, hasST, st, hasSD, sd, sr) *)
-KeyTuple(k) == <<k.id, k.route, k.dir, IF k.hasST THEN 1 ELSE 0, IF k.hasST THEN k.st ELSE 0,
+(* Byte-wise order of trip id tokens: "" first, then the NYCT-format ids (tokens >= 1,000,000 =       *)
+(* variant * 1,000,000 + origin time; suffix order: variant 1 < 3 < 2), then the pool tokens.        *)
+IdRank(t) == IF t = 0 THEN 0
+             ELSE IF t >= 1000000
+                  THEN 1 + (t % 1000000) * 3 + (CASE t \div 1000000 = 1 -> 0 [] t \div 1000000 = 3 -> 1 [] OTHER -> 2)
+                  ELSE 3000001 + t
+KeyTuple(k) == <<IdRank(k.id), k.route, k.dir, IF k.hasST THEN 1 ELSE 0, IF k.hasST THEN k.st ELSE 0,
                  IF k.hasSD THEN 1 ELSE 0, IF k.hasSD THEN k.sd ELSE 0, k.sr>>
 RECURSIVE TupleLess(_, _)
 TupleLess(a, b) ==
@@ -67,8 +73,10 @@ Identifiable(k) == k.id # 0 \/ (k.route # 0 /\ k.dir # 0 /\ k.hasST /\ k.hasSD)
 (* ------------------------------------------------------------------ *)
 (* entities -> trips / vehicles / alerts                                *)
 (* ------------------------------------------------------------------ *)
-(* without an extension no track is surfaced *)
-ConvStu(s) == [seq |-> s.seq, stop |-> s.stop, arr |-> s.arr, dep |-> s.dep, track |-> None,
+(* A track is surfaced only by an extension: its pre-pass (spec/NyctTrips.tla) records the chosen track *)
+(* in the field xtrack of the stop time update; plain stop time updates have no such field.           *)
+ConvStu(s) == [seq |-> s.seq, stop |-> s.stop, arr |-> s.arr, dep |-> s.dep,
+               track |-> IF "xtrack" \in DOMAIN s THEN s.xtrack ELSE None,
                sr |-> OrElse(s.sr, 0)]
 
 TripOfTU(e) == [key |-> TripKey(Val(e.trip)), stus |-> MapSeq(ConvStu, e.stus), inMsg |-> TRUE]
